@@ -47,10 +47,10 @@ def run(chk):
     chk.floor("R06.1", "coordinate-valued tests in PointJacobi", len(coord_tests), 30)
     seen = {}
     for t in coord_tests:
-        k = (t.func.node.name, t.text, t.kind)
+        k = (t.func.node.name, t.ctext, t.kind)
         seen[k] = seen.get(k, 0) + 1
         chk.ob("R06.1", "%s: `%s` (%s test on %s) is exact modulo p" % (t.func.node.name, t.text, t.kind, t.operands), t.exact, loc=loc(t.func, t.node),
-               key="C06|R06.1|%s|%s|%d" % (t.func.node.name, t.text, seen[k]),
+               key="C06|R06.1|%s|%s|%d" % (t.func.node.name, t.ctext, seen[k]),
                detail="%s: `%s` tests a value classified %s: the %s test is not exact modulo p (value not reduced / not a difference of reduced values)" % (t.func.node.name, t.text, [o.cls for o in t.operands], t.kind))
 
     # ---- R06.2
@@ -112,12 +112,12 @@ def run(chk):
                 continue
         nm = t.func.node.name
         allowed = nm in DOUBLING or (nm == "double" and "out" not in t.roles)
-        k = (nm, t.text)
+        k = (nm, t.ctext)
         sites[k] = sites.get(k, 0) + 1
         if allowed:
             n_allowed += 1
         chk.ob("R06.4", "%s: `%s` (Y-role zero test -> %s) only where doubling a 2-torsion point is meant" % (nm, t.text, out), allowed, loc=loc(t.func, t.node),
-               key="C06|R06.4|%s|%s|%d" % (nm, t.text, sites[k]),
+               key="C06|R06.4|%s|%s|%d" % (nm, t.ctext, sites[k]),
                detail="%s treats Y == 0 as the identity (`%s` -> %s): a point of order 2 (y = 0) is mistaken for the point at infinity" % (nm, t.text, out))
     chk.floor("R06.4", "Y-role zero tests with an identity outcome", sum(sites.values()), 4)
 
@@ -221,6 +221,6 @@ def run(chk):
                         if gt.stmt is g and gt.kind == "eq" and all("raw" in o.roles and "Z" in o.roles for o in gt.operands) and {list(o.deps)[0][0] for o in gt.operands if o.deps} == {"op1", "op2"}:
                             ok = True
                 g = parents.get(id(g))
-        chk.ob("R06.7", "__eq__: `%s` depends on the Z of both operands (or is guarded by Z1 == Z2)" % t.text, ok, loc="src/ecdsa/ellipticcurve.py:%d" % t.node.lineno, key="C06|R06.7|zdep|%s" % t.text,
+        chk.ob("R06.7", "__eq__: `%s` depends on the Z of both operands (or is guarded by Z1 == Z2)" % t.text, ok, loc="src/ecdsa/ellipticcurve.py:%d" % t.node.lineno, key="C06|R06.7|zdep|%s" % t.ctext,
                detail="__eq__ decides by `%s`, which ignores the projective scaling of an operand (depends on %s)" % (t.text, sorted(deps)))
     chk.floor("R06.7", "deciding comparisons in PointJacobi.__eq__", nrep, 2)
